@@ -196,10 +196,16 @@ impl TransformerContext {
         clip_chain: &mut Vec<ElRef>,
     ) -> Result<Option<BoundingBox>> {
         let target_el = el.get_target_element(self)?;
-        let mut el_bbox = target_el.bbox()?;
+        let is_use = el.name == "use" || el.name == "reuse";
+        // The box in `el`'s own user space: its `transform` is applied last, since
+        // both the x / y of a `use` and a `clip-path` take effect inside it.
+        let mut el_bbox = if is_use {
+            target_el.bbox()?
+        } else {
+            el.local_bbox()?
+        };
 
-        // TODO: move following to element::bbox() ?
-        if el.name == "use" || el.name == "reuse" {
+        if is_use {
             // assumes el has already had position & attributes resolved
             let translate_x = el.get_attr("x");
             let translate_y = el.get_attr("y");
@@ -246,7 +252,7 @@ impl TransformerContext {
             }
         }
 
-        Ok(el_bbox)
+        el.transformed(el_bbox)
     }
 }
 
